@@ -647,7 +647,7 @@ func init() {
 	fw.Register(&fw.Prop{
 		ID:    "C01",
 		Level: "exploration",
-		Rule:  "bounded-exhaustive value trees: line payloads len<=3 (thorough 5) over {a,0,-,+,:,$,*,SP,NUL,0xff}; bulk payloads len<=4 (thorough 6) over {a,CR,LF,NUL,$,*,+,:,-,0xff} + null; all 256 byte values in 4 shapes; status and error lines of length 2^k-1, 2^k, 2^k+1 (k=6..16), alone and in an array; bulk length sweep 0..65538 (quick: every length <=4096 and 2^k±2); wide arrays of N equal elements (7 element shapes incl. empty and nested arrays, N = 2^k-1, 2^k, 2^k+1 up to 4097 and 100..10000; thorough up to 100000), alone and nested behind a sibling; nesting ladder (chains of arrays 1..128 deep, with and without siblings); arrays arity<=3 depth<=2 over 8 leaves ∪ 73 depth-1 arrays, depth 3 arity<=2; constructors over the same strings, ints -70000..70000 ∪ ±10^k±1 ∪ ±2^k±1 ∪ min/max, floats sign × all 2047 finite exponents × 8 mantissa patterns (thorough: 164, every single-bit, prefix-ones and single-zero mantissa). Plus every ordered pair of 56 representative values (leaves, small arrays, bulk/array sizes around 2^k up to 65536): the encoding of the first and the message parsed from it are retained while the second is serialized/parsed and must be unchanged afterwards. Plus edits between serializations: ~250 trees (depth <= 3), built through the constructors or parsed, serialized, then edited in place at every node with every applicable mutator (Message.Append / Array.Append of 4 values, SetBytes of 3 payloads, SetBytes(nil), SetArray, reading an array to its end) and serialized again, singly and (trees of <= 4 nodes; thorough: all) in every ordered pair, each serialization compared with the reference tree carrying the same edits. Every case is distinct by construction and non-trivial (each exercises serialize+parse+reserialize against an independent codec).",
+		Rule:  "bounded-exhaustive value trees: line payloads len<=3 (thorough 5) over {a,0,-,+,:,$,*,SP,NUL,0xff}; bulk payloads len<=4 (thorough 6) over {a,CR,LF,NUL,$,*,+,:,-,0xff} + null; all 256 byte values in 4 shapes; status and error lines of length 2^k-1, 2^k, 2^k+1 (k=6..16), alone and in an array; bulk length sweep 0..65538 (quick: every length <=4096 and 2^k±2); wide arrays of N equal elements (7 element shapes incl. empty and nested arrays, N = 2^k-1, 2^k, 2^k+1 up to 4097 and 100..10000; thorough up to 100000), alone and nested behind a sibling; nesting ladder (chains of arrays 1..128 deep, with and without siblings); every value also parsed from a reader that delivers it in pieces of 3 (and 4093) bytes; arrays arity<=3 depth<=2 over 8 leaves ∪ 73 depth-1 arrays, depth 3 arity<=2; constructors over the same strings, ints -70000..70000 ∪ ±10^k±1 ∪ ±2^k±1 ∪ min/max, floats sign × all 2047 finite exponents × 8 mantissa patterns (thorough: 164, every single-bit, prefix-ones and single-zero mantissa). Plus every ordered pair of 56 representative values (leaves, small arrays, bulk/array sizes around 2^k up to 65536): the encoding of the first and the message parsed from it are retained while the second is serialized/parsed and must be unchanged afterwards. Plus edits between serializations: ~250 trees (depth <= 3), built through the constructors or parsed, serialized, then edited in place at every node with every applicable mutator (Message.Append / Array.Append of 4 values, SetBytes of 3 payloads, SetBytes(nil), SetArray, reading an array to its end) and serialized again, singly and (trees of <= 4 nodes; thorough: all) in every ordered pair, each serialization compared with the reference tree carrying the same edits. Every case is distinct by construction and non-trivial (each exercises serialize+parse+reserialize against an independent codec).",
 		Assumptions: []string{
 			"the independent strict RESP2 codec in /verif/resp is the reference",
 			"null arrays are outside the property's value list and not generated",
